@@ -4,6 +4,7 @@ import (
 	"encoding/json"
 	"fmt"
 	"os"
+	"path"
 	"path/filepath"
 	"strings"
 
@@ -22,6 +23,9 @@ type Requirement struct {
 	// Alias (npm only): the key under which the dependency is declared, the value being
 	// "npm:<Name>@<Req>".
 	Alias string `json:"alias,omitempty"`
+	// Level (Maven with Manifest.Chain only): the pom of the chain that declares the entry,
+	// 0 the manifest itself, 1 its parent, 2 the grandparent.
+	Level int `json:"level,omitempty"`
 }
 
 // Manifest is the model of a generated manifest; Render is the harness's own renderer.
@@ -36,6 +40,114 @@ type Manifest struct {
 	// <dependencyManagement> for an unrelated artifact. It never takes part in resolution;
 	// it only varies the shape of the document the writer has to patch.
 	InertProfile bool `json:"inert_profile,omitempty"`
+	// Chain (Maven only): the manifest has local parent poms. Deps and Management stay the
+	// effective lists of the project (a package is declared at most once per section over the
+	// whole chain, so inheritance merges the files into exactly these lists); Requirement.Level
+	// says which file declares an entry.
+	Chain *PomChain `json:"chain,omitempty"`
+}
+
+// PomChain places a Maven manifest below one or two local parent poms.
+type PomChain struct {
+	// Path is the location of the manifest relative to the case directory ("a/b/c/pom.xml").
+	Path string `json:"path"`
+	// ParentRel is the <relativePath> of the manifest's <parent> ("" = element omitted, Maven
+	// then looks at ../pom.xml); a directory stands for the pom.xml inside it.
+	ParentRel string `json:"parent_rel,omitempty"`
+	// OmitGroup / OmitVersion: the manifest does not declare its own groupId / version (it
+	// inherits the parent's; Manifest.Name / Manifest.Version hold the effective values).
+	OmitGroup   bool `json:"omit_group,omitempty"`
+	OmitVersion bool `json:"omit_version,omitempty"`
+	// Ancestors are the local parent poms, nearest first. The last one has no <parent> and
+	// declares groupId and version.
+	Ancestors []PomAncestor `json:"ancestors"`
+}
+
+// PomAncestor is one local parent pom (packaging pom).
+type PomAncestor struct {
+	Path      string `json:"path"`                 // location relative to the case directory
+	Artifact  string `json:"artifact"`             // artifactId
+	Group     string `json:"group,omitempty"`      // declared groupId, "" = omitted (inherited from its own parent)
+	Version   string `json:"version,omitempty"`    // declared version, "" = omitted (inherited from its own parent)
+	ParentRel string `json:"parent_rel,omitempty"` // <relativePath> of this pom's own <parent>
+}
+
+// Coordinates returns the effective groupId and version of ancestor i (its own, or the ones
+// inherited from the ancestors above it).
+func (c *PomChain) Coordinates(i int) (group, version string) {
+	for j := i; j < len(c.Ancestors); j++ {
+		if group == "" {
+			group = c.Ancestors[j].Group
+		}
+		if version == "" {
+			version = c.Ancestors[j].Version
+		}
+	}
+	return group, version
+}
+
+// InheritsBelow reports whether the pom at the given level (1 = parent, ...) or a pom between
+// it and the manifest omits its groupId or version, i.e. whether the parent walk from the
+// manifest up to that level passes a pom that is only identified through inheritance.
+func (c *PomChain) InheritsBelow(level int) bool {
+	for j := 0; j < level && j < len(c.Ancestors); j++ {
+		if c.Ancestors[j].Group == "" || c.Ancestors[j].Version == "" {
+			return true
+		}
+	}
+	return false
+}
+
+// resolveParentRel is Maven's lookup of a local parent: relativePath (default ../pom.xml)
+// from the directory of the referring pom; both candidate locations (the path itself, the
+// pom.xml inside it) are returned.
+func resolveParentRel(from, rel string) (asFile, asDir string) {
+	if rel == "" {
+		rel = "../pom.xml"
+	}
+	p := path.Join(path.Dir(from), rel)
+	return p, path.Join(p, "pom.xml")
+}
+
+// Check verifies that the chain is self-contained: distinct locations inside the case
+// directory, every <parent> reference leads to the next file, the topmost pom declares its
+// coordinates.
+func (c *PomChain) Check() error {
+	if len(c.Ancestors) == 0 || len(c.Ancestors) > 3 {
+		return fmt.Errorf("universe: pom chain with %d ancestors", len(c.Ancestors))
+	}
+	paths := []string{c.Path}
+	rels := []string{c.ParentRel}
+	for _, a := range c.Ancestors {
+		paths = append(paths, a.Path)
+		rels = append(rels, a.ParentRel)
+	}
+	for i, p := range paths {
+		if p == "" || p != path.Clean(p) || strings.HasPrefix(p, "../") || strings.HasPrefix(p, "/") || !strings.HasSuffix(p, ".xml") {
+			return fmt.Errorf("universe: pom chain: location %q of pom %d", p, i)
+		}
+		for j, q := range paths[:i] {
+			if p == q || strings.HasPrefix(p, q+"/") || strings.HasPrefix(q, p+"/") {
+				return fmt.Errorf("universe: pom chain: locations %q (pom %d) and %q (pom %d) collide", p, i, q, j)
+			}
+		}
+	}
+	for i := 0; i+1 < len(paths); i++ {
+		f, d := resolveParentRel(paths[i], rels[i])
+		if paths[i+1] != f && paths[i+1] != d {
+			return fmt.Errorf("universe: pom chain: relativePath %q of %s does not lead to %s", rels[i], paths[i], paths[i+1])
+		}
+		for j, q := range paths {
+			if j != i+1 && q == f {
+				return fmt.Errorf("universe: pom chain: relativePath %q of %s names pom %d of the chain", rels[i], paths[i], j)
+			}
+		}
+	}
+	top := c.Ancestors[len(c.Ancestors)-1]
+	if top.Group == "" || top.Version == "" || top.ParentRel != "" {
+		return fmt.Errorf("universe: pom chain: the topmost pom needs its own groupId and version and no parent")
+	}
+	return nil
 }
 
 // FileName is the base name the manifest has to have on disk.
@@ -46,10 +158,31 @@ func (m Manifest) FileName() string {
 	return "package.json"
 }
 
+// RelPath is the location of the manifest file relative to the directory WriteTo is given.
+func (m Manifest) RelPath() string {
+	if m.Chain != nil {
+		return m.Chain.Path
+	}
+	return m.FileName()
+}
+
+// level clamps the level of a requirement to the files the manifest has.
+func (m Manifest) level(r Requirement) int {
+	if m.Chain == nil || r.Level < 0 {
+		return 0
+	}
+	return min(r.Level, len(m.Chain.Ancestors))
+}
+
 // Clone returns a deep copy.
 func (m Manifest) Clone() Manifest {
 	m.Deps = append([]Requirement(nil), m.Deps...)
 	m.Management = append([]Requirement(nil), m.Management...)
+	if m.Chain != nil {
+		c := *m.Chain
+		c.Ancestors = append([]PomAncestor(nil), c.Ancestors...)
+		m.Chain = &c
+	}
 	return m
 }
 
@@ -124,25 +257,102 @@ func pomDep(b *strings.Builder, indent string, d Requirement) {
 	fmt.Fprintf(b, "%s</dependency>\n", indent)
 }
 
+// pomParent writes the <parent> element that refers to ancestor i of the chain.
+func (m Manifest) pomParent(b *strings.Builder, i int, rel string) {
+	g, v := m.Chain.Coordinates(i)
+	b.WriteString("  <parent>\n")
+	fmt.Fprintf(b, "    <groupId>%s</groupId>\n    <artifactId>%s</artifactId>\n    <version>%s</version>\n", xmlEsc(g), xmlEsc(m.Chain.Ancestors[i].Artifact), xmlEsc(v))
+	if rel != "" {
+		fmt.Fprintf(b, "    <relativePath>%s</relativePath>\n", xmlEsc(rel))
+	}
+	b.WriteString("  </parent>\n")
+}
+
+// pomSections writes the <dependencyManagement> and <dependencies> entries of one level.
+func (m Manifest) pomSections(b *strings.Builder, level int) {
+	var mgmt, deps []Requirement
+	for _, d := range m.Management {
+		if m.level(d) == level {
+			mgmt = append(mgmt, d)
+		}
+	}
+	for _, d := range m.Deps {
+		if m.level(d) == level {
+			deps = append(deps, d)
+		}
+	}
+	if len(mgmt) > 0 {
+		b.WriteString("  <dependencyManagement>\n    <dependencies>\n")
+		for _, d := range mgmt {
+			pomDep(b, "      ", d)
+		}
+		b.WriteString("    </dependencies>\n  </dependencyManagement>\n")
+	}
+	if len(deps) > 0 {
+		b.WriteString("  <dependencies>\n")
+		for _, d := range deps {
+			pomDep(b, "    ", d)
+		}
+		b.WriteString("  </dependencies>\n")
+	}
+}
+
+// renderAncestor renders ancestor i (0 = the parent) of the chain.
+func (m Manifest) renderAncestor(i int) []byte {
+	var b strings.Builder
+	a := m.Chain.Ancestors[i]
+	b.WriteString("<project>\n  <modelVersion>4.0.0</modelVersion>\n")
+	if i+1 < len(m.Chain.Ancestors) {
+		m.pomParent(&b, i+1, a.ParentRel)
+	}
+	if a.Group != "" {
+		fmt.Fprintf(&b, "  <groupId>%s</groupId>\n", xmlEsc(a.Group))
+	}
+	fmt.Fprintf(&b, "  <artifactId>%s</artifactId>\n", xmlEsc(a.Artifact))
+	if a.Version != "" {
+		fmt.Fprintf(&b, "  <version>%s</version>\n", xmlEsc(a.Version))
+	}
+	b.WriteString("  <packaging>pom</packaging>\n")
+	m.pomSections(&b, i+1)
+	b.WriteString("</project>\n")
+	return []byte(b.String())
+}
+
+// Files returns every file of the manifest (the manifest first, then its local parent poms)
+// with its location relative to the directory WriteTo is given.
+func (m Manifest) Files() []ManifestFile {
+	out := []ManifestFile{{Path: m.RelPath(), Data: m.Render()}}
+	if m.System == Maven && m.Chain != nil {
+		for i, a := range m.Chain.Ancestors {
+			out = append(out, ManifestFile{Path: a.Path, Data: m.renderAncestor(i)})
+		}
+	}
+	return out
+}
+
+// ManifestFile is one rendered file of a manifest.
+type ManifestFile struct {
+	Path string
+	Data []byte
+}
+
 func (m Manifest) renderPOM() []byte {
 	var b strings.Builder
 	g, a, _ := strings.Cut(m.Name, ":")
 	b.WriteString("<project>\n  <modelVersion>4.0.0</modelVersion>\n")
-	fmt.Fprintf(&b, "  <groupId>%s</groupId>\n  <artifactId>%s</artifactId>\n  <version>%s</version>\n", xmlEsc(g), xmlEsc(a), xmlEsc(m.Version))
-	if len(m.Management) > 0 {
-		b.WriteString("  <dependencyManagement>\n    <dependencies>\n")
-		for _, d := range m.Management {
-			pomDep(&b, "      ", d)
+	if m.Chain != nil && len(m.Chain.Ancestors) > 0 {
+		m.pomParent(&b, 0, m.Chain.ParentRel)
+		if !m.Chain.OmitGroup {
+			fmt.Fprintf(&b, "  <groupId>%s</groupId>\n", xmlEsc(g))
 		}
-		b.WriteString("    </dependencies>\n  </dependencyManagement>\n")
-	}
-	if len(m.Deps) > 0 {
-		b.WriteString("  <dependencies>\n")
-		for _, d := range m.Deps {
-			pomDep(&b, "    ", d)
+		fmt.Fprintf(&b, "  <artifactId>%s</artifactId>\n", xmlEsc(a))
+		if !m.Chain.OmitVersion {
+			fmt.Fprintf(&b, "  <version>%s</version>\n", xmlEsc(m.Version))
 		}
-		b.WriteString("  </dependencies>\n")
+	} else {
+		fmt.Fprintf(&b, "  <groupId>%s</groupId>\n  <artifactId>%s</artifactId>\n  <version>%s</version>\n", xmlEsc(g), xmlEsc(a), xmlEsc(m.Version))
 	}
+	m.pomSections(&b, 0)
 	if m.InertProfile {
 		b.WriteString("  <profiles>\n    <profile>\n      <id>verif-inert</id>\n      <dependencyManagement>\n        <dependencies>\n")
 		pomDep(&b, "          ", Requirement{Name: "org.verif.unrelated:nothing", Req: "1.0.0"})
@@ -152,13 +362,24 @@ func (m Manifest) renderPOM() []byte {
 	return []byte(b.String())
 }
 
-// WriteTo writes the rendered manifest into dir and returns its path.
+// WriteTo writes the rendered manifest (with its local parent poms, if any) into dir and
+// returns the path of the manifest file.
 func (m Manifest) WriteTo(dir string) (string, error) {
-	p := filepath.Join(dir, m.FileName())
-	if err := os.WriteFile(p, m.Render(), 0o644); err != nil {
-		return "", err
+	if m.Chain != nil {
+		if err := m.Chain.Check(); err != nil {
+			return "", err
+		}
 	}
-	return p, nil
+	for _, f := range m.Files() {
+		p := filepath.Join(dir, filepath.FromSlash(f.Path))
+		if err := os.MkdirAll(filepath.Dir(p), 0o755); err != nil {
+			return "", err
+		}
+		if err := os.WriteFile(p, f.Data, 0o644); err != nil {
+			return "", err
+		}
+	}
+	return filepath.Join(dir, filepath.FromSlash(m.RelPath())), nil
 }
 
 // Update is one requirement change, in the harness's own terms.
